@@ -249,7 +249,38 @@ func (s *c06State) actions() map[string]func(*rapid.T) {
 		}
 		s.consumers[si] = nil
 	}
+	// another session of the VRF comes up / goes down: it contributes / withdraws its local ASN and, if it is a
+	// route reflector client session, its cluster ID (fsmAddressFamily.init / dispose; reference counted)
+	vrfUp := func(t *rapid.T) {
+		if rapid.Bool().Draw(t, "cluster") {
+			c := rapid.SampledFrom(crigExtraClusters).Draw(t, "cid")
+			cas.Logf("vrf: session with cluster id %#x comes up", c)
+			r.vrfAddCluster(c)
+		} else {
+			a := rapid.SampledFrom(crigExtraASNs).Draw(t, "asn")
+			cas.Logf("vrf: session with local AS %d comes up", a)
+			r.vrfAddASN(a)
+		}
+		cas.Class("vrf_contribution_added")
+	}
+	vrfDown := func(t *rapid.T) {
+		if rapid.Bool().Draw(t, "cluster") {
+			c := rapid.SampledFrom(crigExtraClusters).Draw(t, "cid")
+			if !r.vrfDelCluster(c) {
+				t.Skip("not contributed")
+			}
+			cas.Logf("vrf: session with cluster id %#x goes down (still contributing: %v)", c, r.clRef[c] > 0)
+		} else {
+			a := rapid.SampledFrom(crigExtraASNs).Draw(t, "asn")
+			if !r.vrfDelASN(a) {
+				t.Skip("not contributed")
+			}
+			cas.Logf("vrf: session with local AS %d goes down (still contributing: %v)", a, r.asnRef[a] > 0)
+		}
+		cas.Class("vrf_contribution_removed")
+	}
 	return map[string]func(*rapid.T){
+		"vrfUp": vrfUp, "vrfDown": vrfDown,
 		"announce1": announce, "announce2": announce, "announce3": announce, "announce4": announce,
 		"withdraw":       withdraw,
 		"flush":          flush,
@@ -270,6 +301,9 @@ func c06Setup(t *rapid.T, cas *kit.Case) *c06State {
 			IBGP:      rapid.IntRange(0, 2).Draw(t, fmt.Sprintf("s%d_ibgp", i)) == 0,
 			AddPathRX: rapid.Bool().Draw(t, fmt.Sprintf("s%d_addpath", i)),
 			Policy:    crigGenPolicy(t, uni, c06PolicyKinds, fmt.Sprintf("s%d_pol", i)),
+		}
+		if spec.IBGP {
+			spec.NonClient = rapid.Bool().Draw(t, fmt.Sprintf("s%d_nonclient", i))
 		}
 		if !spec.IBGP {
 			// RFC 9234: roles exist on eBGP sessions only
